@@ -6,7 +6,9 @@ Model of the shooting move (C09) of infretis/core/tis.py, on order values:
   shoot_backwards         (tis.py:678-724)
   paste_paths             (path.py:352-421), Path.__iadd__ (path.py:186-202)
   Path.check_interfaces   (path.py:75-89)
-and, second half, of wire_fencing / extender / subt_acceptance (tis.py:476-675).
+  run_md                  (tis.py:70-107)    only the replacement of the live path
+(wire_fencing / extender / subt_acceptance, tis.py:476-675, are NOT modelled here; the harness
+judges that move by direct predicates only.)
 
 The MD engine is abstract: a pair of order-value streams (what the MD program produces after
 the shooting point, backward and forward in time) consumed through `add_to_path`
@@ -14,8 +16,9 @@ the shooting point, backward and forward in time) consumed through `add_to_path`
 it was started from, i.e. the shooting point with its kicked order value (engine contract,
 assumed: order parameter not velocity-direction dependent).
 
-`Variant`: `asIs` mirrors the code; `repaired` differs in ONE place, the third block of
-`add_to_path` (`length == maxlen` no longer overrides a crossing detected on that same frame).
+`Variant`: `repaired` mirrors the code as it is since /repo f955162; `asIs` is the code before that
+commit (kept as the record of the finding). They differ in ONE place, the third block of
+`add_to_path` (`repaired`: `length == maxlen` does not override a crossing detected on that frame).
 
 Random draws are arguments (`idx`, `xi`); the model returns the draw requests it made.
 No imports outside Infretis.Model: this file is part of the compiled driver.
@@ -30,7 +33,7 @@ inductive Variant | asIs | repaired
 deriving Repr, DecidableEq
 
 /-- `add_to_path` with the variant switch at the `length == maxlen` override.
-    For `asIs` it is the shared `Engine.addToPath` (proved in Lemmas/Moves.lean). -/
+    For `repaired` it is the shared `Engine.addToPath` (proved in Lemmas/Moves.lean). -/
 def addToPathV (v : Variant) (ops : List Int) (maxlen : Option Nat) (x : Int) (left right : Int) :
     Option (List Int × AddResult) :=
   let (ops', add) := pathAppend ops maxlen x
@@ -106,7 +109,7 @@ def checkInterfaces (ops : List Int) (l m r : Int) : WF.Side × WF.Side × Bool 
   | _, _, _, _ => (.U, .U, false)
 
 inductive Status
-  | ACC | KOB | BTL | BTX | BWI | FTL | FTX | ZL /- "0-L" -/ | NCR | NSG | FTXE /- FTX from extender -/
+  | ACC | KOB | BTL | BTX | BWI | FTL | FTX | ZL /- "0-L" -/ | NCR
 deriving Repr, DecidableEq
 
 inductive Err
